@@ -36,6 +36,8 @@ try:
             verdict = {0: "MISSED", 1: "DETECTED", 2: "INCONCLUSIVE"}.get(p.returncode, "rc%d" % p.returncode)
             print("%s %s seed=%s: %s %s" % (os.path.basename(os.path.dirname(os.path.abspath(a.patch))) or a.patch, chk, seed, verdict, sorted(set(keys))[:4]))
             results.append((chk, seed, verdict, sorted(set(keys))[:6]))
+            if verdict not in ("MISSED", "DETECTED"):
+                print("    | " + "\n    | ".join(out.splitlines()[-15:]))
             sys.stdout.flush()
 finally:
     subprocess.run(["git", "-C", "/repo", "checkout", "--", "."])
